@@ -64,6 +64,11 @@ def tlv(t, v):
     return bytes([t, len(v) & 255]) + v
 
 
+def LONG(n):
+    """service name of n octets (254 is the longest an SDREQ TLV can carry, 255 the longest SN TLV)"""
+    return (b"urn:nfc:sn:" + b"a" * n)[:n]
+
+
 def gen_frame(sim, ctx):
     """-> (class label, bytes).  ctx: dict with live addresses (dlc peer/addr, ldl addr ...)"""
     import random as _r
@@ -85,11 +90,11 @@ def gen_frame(sim, ctx):
             "UI": hdr(d, 3, s) + data, "I": hdr(d, 12, s) + bytes([ns << 4 | nr]) + data,
             "RR": hdr(d, 13, s) + bytes([nr]), "RNR": hdr(d, 14, s) + bytes([nr]),
             "CONNECT": hdr(d, 4, s) + tlv(2, struct.pack(">H", sim.choose("miux", 0x800))) + tlv(5, bytes([sim.choose("rw", 16)])) +
-            (tlv(6, sim.pick("sn", [b"urn:nfc:sn:snep", b"urn:nfc:sn:handover", b"urn:nfc:sn:x", b"", b"\xff\xfe", b"a" * 200, b"urn:nfc:sn:caf\xe9", b"urn:nfc:sn:\x80"])) if sim.chance("sn", 0.6) else b""),
+            (tlv(6, sim.pick("sn", [b"urn:nfc:sn:snep", b"urn:nfc:sn:handover", b"urn:nfc:sn:x", b"", b"\xff\xfe", b"a" * 200, b"urn:nfc:sn:caf\xe9", b"urn:nfc:sn:\x80", LONG(255), LONG(254)])) if sim.chance("sn", 0.6) else b""),
             "CC": hdr(d, 6, s) + tlv(2, struct.pack(">H", sim.choose("miux2", 0x800))) + tlv(5, bytes([sim.choose("rw2", 16)])),
             "DISC": hdr(d, 5, s), "DM": hdr(d, 7, s) + bytes([sim.choose("dm", 256)]),
             "FRMR": hdr(d, 8, s) + sim.bytes("frmr", 4, tag=3),
-            "SNL": hdr(1, 9, 1) + tlv(8, bytes([sim.choose("tid", 256)]) + sim.pick("sdn", [b"urn:nfc:sn:snep", b"", b"x" * 100])) +
+            "SNL": hdr(1, 9, 1) + tlv(8, bytes([sim.choose("tid", 256)]) + sim.pick("sdn", [b"urn:nfc:sn:snep", b"", b"x" * 100, LONG(253), LONG(254), LONG(252)])) +
             tlv(9, bytes([sim.choose("tid2", 256), sim.choose("sap", 256)])),
             "PAX": hdr(0, 1, 0) + tlv(1, b"\x13") + tlv(2, b"\x00\x78"),
             "SYMM": hdr(0, 0, 0), "DPS": hdr(0, 10, 0) + tlv(10, bytes(64)) + tlv(11, bytes(8)),
@@ -142,7 +147,7 @@ def gen_frame(sim, ctx):
             if sim.chance("snl.res", 0.3):
                 out += tlv(9, bytes([i & 255, sim.choose("snl.sap", 256)]))
             else:
-                out += tlv(8, bytes([i & 255]) + sim.pick("snl.name", [b"urn:nfc:sn:snep", b"urn:nfc:sn:n", b""]))
+                out += tlv(8, bytes([i & 255]) + sim.pick("snl.name", [b"urn:nfc:sn:snep", b"urn:nfc:sn:n", b"", LONG(254), LONG(253)]))
         return "snl-flood", out
     # seq: window / sequence abuse on established connections
     ns, nr = sim.choose("seq.ns", 16), sim.choose("seq.nr", 16)
